@@ -160,7 +160,7 @@ def random_cases(ctx, vh, notes):
     if ctx.tier == "quick":
         n, maxv, big = 350, 12, 4
     else:
-        n, maxv, big = 12000, 40, 15
+        n, maxv, big = 9000, 40, 15
     p = os.path.join(d, "r.ndjson")
     core.run_vh(vh, ["gltf-random", "-out", p, "-seed", str(ctx.seed), "-n", str(n), "-maxv", str(maxv), "-big", str(big)])
     cases = core.read_ndjson(p)
@@ -284,24 +284,33 @@ def confirm(ctx, vh, findings):
 
 def _corruptions():
     def acc_val(ln):
-        for a in ln["out"]["accs"]:
-            if a["comp"] == 5126 and a["full"] and a["count"] >= 2 and not a["hasMin"]:
-                a["vals"][0][0] ^= 1
-                return True
-        # instance accessors always declare bounds: use one and expect MinMax or data
-        for a in ln["out"]["accs"]:
-            if a["comp"] == 5126 and a["full"] and a["count"] >= 3:
-                mid = sorted(range(a["count"]), key=lambda i: a["vals"][i][0])[1]
-                a["vals"][mid][0] ^= 1
-                return True
+        # an element strictly between the bounds: min/max stay true, only the content changes
+        def key(b):
+            return b if b >= 0 else -(b + 2147483647) - 1
+        o = ln["out"]
+        for m in o["meshes"]:
+            p = m["prims"][0]
+            if p["idx"] < 0 or not o["accs"][p["idx"]]["full"]:
+                continue
+            referenced = {v[0] for v in o["accs"][p["idx"]]["vals"]}
+            for at in p["attrs"]:
+                a = o["accs"][at["acc"]]
+                if a["comp"] == 5126 and a["full"] and a["count"] >= 3:
+                    ks = [key(v[0]) for v in a["vals"]]
+                    for i, k in enumerate(ks):
+                        if i in referenced and min(ks) + 4 < k < max(ks) - 4 and a["vals"][i][0] > 0:
+                            a["vals"][i][0] ^= 1
+                            return True
         return False
 
     def view_off(ln):
-        vs = ln["out"]["views"]
-        if len(vs) >= 2 and vs[1]["len"] >= 8:
-            vs[1]["off"] += 2
-            vs[1]["len"] -= 2
-            return True
+        # shift a view that is not the last one of its buffer (it stays inside the buffer)
+        o = ln["out"]
+        used = {a["view"] for a in o["accs"] if a["comp"] == 5126}
+        for i, v in enumerate(o["views"]):
+            if i in used and v["off"] + v["len"] + 2 <= o["buffers"][v["buf"]]["len"]:
+                v["off"] += 2
+                return True
         return False
 
     def decl_min(ln):
@@ -367,7 +376,7 @@ def _corruptions():
         return False
 
     return [
-        ("decoded accessor element", acc_val, {"C06.AttrData", "C06.MinMax", "C06.Instances"}),
+        ("decoded accessor element", acc_val, {"C06.AttrData", "C06.Instances"}),
         ("buffer view offset", view_off, {"C06.Aligned"}),
         ("declared minimum", decl_min, {"C06.MinMax"}),
         ("extensionsUsed entry", ext_used, {"C06.ExtDeclared"}),
